@@ -147,7 +147,9 @@ func checkC02(p *Program, r *Report) {
 		"regrouping rejects exactly under the reference condition bits ≥ fromBits ∨ ((acc << (toBits − bits)) & maxv) ≠ 0 when not padding. C02.checksum: " +
 		"every accepting return of the CashAddr decoder is behind the remainder test, of DecodeAddress behind a checksum-verifying decoder (or is the raw " +
 		"public-key arm). C02.canon: no decoder rewrites its input with a normalising or Unicode case-mapping function (only ASCII folding), the per-character case " +
-		"flags test exact ASCII ranges, and Base58 symbols are looked up per byte. Not decided: injectivity of the whole decoding as a value-level statement; foreign-prefix rejection (a consequence of the checksum covering the prefix, see C03)."
+		"flags test exact ASCII ranges, and Base58 symbols are looked up per byte. C02.bits: all eight bits of the CashAddr version byte take part in its classification. " +
+		"C02.whole: the CashAddr decoder is handed the whole input (as is, or prefix + ':' + lower-cased input), never a part of it. C02.registry: a legacy address is built only after " +
+		"both registry lookups of its version byte. Not decided: injectivity of the whole decoding as a value-level statement; foreign-prefix rejection (a consequence of the checksum covering the prefix, see C03)."
 	r.Trusted = []string{"CashAddr specification: payload = version byte + hash; regrouping 5↔8 with zero padding", "bchec.ParsePubKey"}
 
 	decoders := []entryRef{{"", "DecodeAddress"}, {"", "DecodeCashAddress"}, {"", "DecodeWIF"}, {"hdkeychain", "NewKeyFromString"},
@@ -448,6 +450,7 @@ func c02guards(p *Program, r *Report, scope []*ssa.Function) {
 		r.Add("C02.guards", FnName(dc), "strings mixing upper and lower case reject", dc.Pos(), exact && rej, "flags cover exactly a..z and A..Z; the block where both are set leads only to error returns "+why)
 	}
 	r.Floor("C02.guards", 5)
+	c02extra(p, r)
 }
 
 func isBoolPhi(ph *ssa.Phi) bool {
